@@ -1,4 +1,5 @@
 """C01 - the message pump cannot be crashed or tricked by input."""
+from .. import core, gen
 from ..lockprops import VERSIONS, make_jobs, replay_lock, run_lock_job
 
 ID = "C01"
@@ -22,6 +23,8 @@ def jobs(tier, seed):
             k += 1
             out.append({"kind": "extend", "version": v, "flavour": ["sync", "async"][k % 2], "mqtt": k % 5 == 0, "prefixes": [pn], "tier": tier})
     out.append({"kind": "suite"})
+    for i in range(4 if tier == "quick" else 16):
+        out.append({"kind": "failing-disk", "seed": seed, "i": i, "n": 12 if tier == "quick" else 40})
     return out
 
 
@@ -39,6 +42,59 @@ def normal_forms(res, cfg, steps, out):
             res.count("controller_fw_calls")
 
 
+def run_failing_disk(job):
+    """Persistence is on and the disk fails (full, gone) while lines are handled: whatever the handlers do with the
+    file, no exception may come out of message processing - lines are input, the disk is not the pump's business."""
+    import errno
+    import os
+    import shutil
+    import tempfile
+    from ..core import Result
+    from ..drive import Engine, PumpDied
+    from ..fsshim import Shim
+
+    res = Result()
+    rng = core.rng_for(ID, "failing-disk", job["seed"], job["i"])
+    tmp = tempfile.mkdtemp(prefix="vf-c01-disk-")
+    try:
+        for h in range(job["n"]):
+            version = VERSIONS[h % len(VERSIONS)]
+            flavour = ["sync", "async"][(h // 5) % 2]
+            ext = ["json", "pickle"][h % 2]
+            path = os.path.join(tmp, f"net{h}.{ext}")
+            eng = Engine(flavour, version, persistence_file=path)
+            steps = [["in", "255;255;3;0;3;"], ["in", f"1;255;0;0;17;{version}"], ["in", "1;1;0;0;3;d"], ["in", "255;255;3;0;3;"]]
+            steps += [s for s in gen.history(rng, version, 30, {"garbage": 0.1, "ctl": 0.1, "sleep": True, "ota": False, "unicode": 0.2}) if s[0] in ("in", "set")]
+            steps += [["in", "255;255;3;0;3;"], ["in", "9;255;3;0;0;50"]]
+            sh = Shim("fail-all", err=rng.choice([errno.ENOSPC, errno.EIO, errno.EROFS])).install()
+            died = None
+            try:
+                for s in steps:
+                    try:
+                        if s[0] == "in":
+                            eng.feed(s[1])
+                        else:
+                            eng.call("set", *s[1:5])
+                    except PumpDied:
+                        died = (s, eng.pump_exc)
+                        break
+            finally:
+                sh.uninstall()
+            res.evals += len(steps)
+            res.count("failing_disk_histories")
+            res.count("failing_disk_lines", len(steps))
+            res.count("failing_disk_file_ops_refused", sh.n)
+            res.nontrivial(("failing-disk", version, flavour, ext, h))
+            if died is not None:
+                s, exc = died
+                res.violation(f"pump-exception-with-failing-disk:{core.exc_sig(exc)}",
+                              f"with persistence on and the disk failing, handling {s!r} raised {type(exc).__name__}: {exc}",
+                              {"kind": "failing-disk", "version": version, "flavour": flavour, "ext": ext, "steps": steps})
+    finally:
+        shutil.rmtree(tmp, ignore_errors=True)
+    return res
+
+
 def run(job):
     if job.get("kind") == "suite":
         from ..core import Result
@@ -50,10 +106,14 @@ def run(job):
         return res
     if job.get("kind") == "extend":
         return run_extend(job)
+    if job.get("kind") == "failing-disk":
+        return run_failing_disk(job)
     return run_lock_job(ID, job, normal_forms, confirm_crash=True)
 
 
 def replay(case):
+    if case.get("kind") == "failing-disk":
+        return run_failing_disk({"seed": 0, "i": 0, "n": 10})
     return replay_lock(ID, case)
 
 
@@ -76,7 +136,7 @@ def finish(agg, tier):
                    ("controller_set_calls", c.get("controller_set_calls", 0), 1000),
                    ("controller_values_with_semicolon", c.get("controller_values_with_semicolon", 0), 20),
                    ("controller_fw_calls", c.get("controller_fw_calls", 0), 300),
-                   ("extension_lines", c.get("extension_lines", 0), 60000),
+                   ("extension_lines", c.get("extension_lines", 0), 60000), ("failing_disk_histories", c.get("failing_disk_histories", 0), 40),
                    ("contract_evaluations:Gateway.logic:rejected", c.get("contract_evaluations:Gateway.logic:rejected", 0), 20)],
         "assumptions": ["sync pump emulation = the body of SyncTasks._poll_queue (reply = run_job(); transport.send(reply)); a crash "
                         "seen there is reported only if the real threaded pump also dies on the shrunk history",
